@@ -108,6 +108,19 @@ Theorem index_stable_at_generated_schemas : forall m names syn fs extra,
 Proof. exact root_field_index_generated. Qed.
 Print Assumptions index_stable_at_generated_schemas.
 
+(* yara field options other than `name` / `ignore` (lowercase, fmt, acl,
+   deprecation_notice) do not enter the structure: every field carrying one is
+   an ordinary visible scalar field of the generated schema (a string for
+   `lowercase`), so the value a condition reads is the value in the message *)
+Theorem field_options_do_not_affect_values :
+  forallb annotated_ok proto_annotated = true /\
+  forall m names syn fs extra n f msgbody x enums,
+    In (m, (names, TMsg syn fs extra)) proto_schemas ->
+    find_field n fs = Some f -> fd_ty f = TStr -> assoc_n (fd_number f) msgbody = Some (VStr x) ->
+    lookup (TMsg syn fs extra) (Some (VMsg msgbody)) enums [SField n] = RS x.
+Proof. split; [exact annotated_fields_ordinary|exact annotated_root_field_value]. Qed.
+Print Assumptions field_options_do_not_affect_values.
+
 (* the real thing is not vacuous: test_proto2 and pe are among the schemas *)
 Example generated_schemas_present :
   generated_schema "test_proto2" <> None /\ generated_schema "pe" <> None /\
